@@ -97,6 +97,7 @@ type spec struct {
 	ZeroAt       int    `json:"z"`  // offset before which exactly one (0,nil) read is inserted; -1 none
 	ZeroBudget   int    `json:"zb"` // tape-placed (0,nil) reads
 	Second       bool   `json:"2"`  // a second call with the same codec instance (alias check)
+	Transient    bool   `json:"tr"` // the read error is transient: the read fails once, delivers nothing, and the stream carries on afterwards
 	ErrOnce      bool   `json:"eo"` // the failing reader reports its error once and io.EOF afterwards
 	ErrKind      int    `json:"ek"` // which error value the failing reader returns: 0 a private one, 1 io.ErrUnexpectedEOF, 2 one that wraps io.EOF
 }
@@ -175,6 +176,7 @@ func drawSpec(t *kernel.Tape) spec {
 	sp.Second = t.Choose(3, "second-call") == 1
 	sp.ErrKind = t.Weighted("read-error-value", 3, 1, 1)
 	sp.ErrOnce = t.Bool(4, "read-error-reported-once")
+	sp.Transient = t.Bool(5, "read-error-is-transient")
 	return sp
 }
 
@@ -271,10 +273,12 @@ func errClass(err error) string {
 
 // input is a Stream plus the reader handed to the code under test.
 type input struct {
-	st     *kernel.Stream
-	full   []byte // the content the stream would deliver without a fault
-	r      io.Reader
-	faulty bool // an injected error is the terminal condition
+	st             *kernel.Stream
+	full           []byte // the content the stream would deliver without a fault
+	r              io.Reader
+	faulty         bool // an injected error is the terminal condition
+	transientAtEnd bool
+	failAt         int // offset at which the injected read error arrives (len(full) when there is none)
 }
 
 // zeroReader inserts exactly one (0,nil) read before the read that would start
@@ -306,8 +310,9 @@ func (c *run) newInput(name, tag string, full []byte, closable bool) *input {
 	sp := c.sp
 	st := kernel.NewStream(c.env, name, full)
 	st.Tag = tag
-	in := &input{st: st, full: full}
+	in := &input{st: st, full: full, failAt: len(full)}
 	if off := pickOff(c.tape, sp.ReadErr, len(full), "read-error-offset"); off >= 0 {
+		in.failAt = off
 		st.Data = full[:off]
 		st.Term = &kernel.InjectedError{What: fmt.Sprintf("read error at %d", off)}
 		switch sp.ErrKind {
@@ -320,9 +325,16 @@ func (c *run) newInput(name, tag string, full []byte, closable bool) *input {
 			c.env.Fault("read-error-wraps-io.EOF")
 		}
 		st.ErrOnce = sp.ErrOnce
+		if sp.Transient {
+			// the read at this offset fails once (a timeout, say) and the stream then carries on to its real end:
+			// the codec cannot know that, the error still has to come back
+			st.Data, st.Term, st.ErrOnce = full, nil, false
+			st.TransientErrAt = off
+			in.transientAtEnd = off == len(full)
+		}
 		in.faulty = true
 	}
-	st.TermWithData = sp.TermWithData
+	st.TermWithData = sp.TermWithData && !in.transientAtEnd // the end marker must not ride along with the last byte past a transient error that waits at the end
 	switch {
 	case sp.Chunk == 0:
 		st.ChunkMode = kernel.ChunkWhole
